@@ -9,6 +9,7 @@ import ClusterVerif.Model.C14Snaps
 import ClusterVerif.Lemmas.C14Snaps
 import ClusterVerif.Model.C14Damage
 import ClusterVerif.Lemmas.C14Damage
+import ClusterVerif.Model.C14Crdt
 
 /-!
 # C14 — state export/import, snapshots, backups and the peerstore file round-trip
@@ -1336,4 +1337,127 @@ theorem gen_source_FsCalls_c_raftStateManager_ImportState : Gen.FsCalls.c_raftSt
 theorem gen_source_FsCalls_c_crdtStateManager_ImportState : Gen.FsCalls.c_crdtStateManager_ImportState = Expected.FsCalls.c_crdtStateManager_ImportState := rfl
 
 
+/-! ## The crdt side: `crdtStateManager.ImportState` / `ExportState` / `Clean`, `crdt.OfflineState` on a shared datastore -/
+
+section CrdtTheorems
+open CV.C14.Crdt
+
+theorem crdt_filter_clean (ns : Nat) (ds : DS) : (clean ns ds).filter (fun e => e.ns == ns) = [] := by
+  unfold clean
+  rw [List.filter_filter]
+  apply List.filter_eq_nil_iff.2
+  intro e _
+  cases h : e.ns == ns <;> simp [bne, h]
+
+/-- after `Clean` the offline read is empty, for every store content -/
+theorem crdt_read_clean (ns : Nat) (ds : DS) : offlineRead ns (clean ns ds) = [] := by
+  unfold offlineRead
+  rw [crdt_filter_clean]
+  rfl
+
+/-- `Clean` leaves every other namespace as it was -/
+theorem crdt_clean_others (ns : Nat) (ds : DS) : (clean ns ds).filter (fun e => e.ns != ns) = clean ns ds := by
+  unfold clean
+  rw [List.filter_filter]
+  congr 1
+  funext e
+  simp
+
+theorem crdt_read_commit_clean (ns : Nat) (ds : DS) {m : PinMap} (hs : SS m) :
+    offlineRead ns (commit ns m (clean ns ds)) = m := by
+  unfold offlineRead commit
+  rw [List.filter_append, crdt_filter_clean, List.nil_append]
+  have : (m.map (fun p => ({ ns := ns, pin := p } : Entry))).filter (fun e => e.ns == ns) =
+      m.map (fun p => ({ ns := ns, pin := p } : Entry)) := by
+    apply List.filter_eq_self.2
+    intro e he
+    obtain ⟨p, _, rfl⟩ := List.mem_map.1 he
+    simp
+  rw [this, List.map_map]
+  have : (m.map ((fun e : Entry => e.pin) ∘ fun p => ({ ns := ns, pin := p } : Entry))) = m := by
+    simp [Function.comp_def]
+  rw [this]
+  exact putAll_arrangement hs (List.Perm.refl _)
+
+theorem ss_importInto : ∀ (js : List JPin) {m m' : PinMap}, SS m → importInto m js = some m' → SS m' := by
+  intro js
+  induction js with
+  | nil => intro m m' hs h; simp [importInto] at h; exact h ▸ hs
+  | cons j t ih =>
+    intro m m' hs h
+    unfold importInto at h
+    cases hj : jdec j with
+    | none => simp [hj] at h
+    | some p => simp [hj] at h; exact ih (ss_put hs) h
+
+/-- what is read offline after an import depends on the stream only: NOTHING survives of the prior content of the crdt
+    name space (every prior store content, every stream, garbled or not) -/
+theorem crdt_import_replaces (ns : Nat) (ds : DS) (js : List JPin) (garbage : Bool) :
+    offlineRead ns (importCrdt ns ds js garbage).2 = offlineRead ns (importCrdt ns [] js garbage).2 ∧
+    (importCrdt ns ds js garbage).1 = (importCrdt ns [] js garbage).1 ∧
+    (importCrdt ns ds js garbage).2.filter (fun e => e.ns != ns) = clean ns ds := by
+  unfold importCrdt
+  cases h : importInto [] js with
+  | none => exact ⟨by simp [crdt_read_clean], rfl, crdt_clean_others ns ds⟩
+  | some m =>
+    have hs : SS m := ss_importInto js ss_nil h
+    cases garbage
+    · cases hjs : js.isEmpty
+      · refine ⟨by simp [crdt_read_commit_clean _ _ hs], rfl, ?_⟩
+        simp only [Bool.false_eq_true, if_false]
+        unfold commit
+        rw [List.filter_append, crdt_clean_others]
+        have : (m.map (fun p => ({ ns := ns, pin := p } : Entry))).filter (fun e => e.ns != ns) = [] := by
+          apply List.filter_eq_nil_iff.2
+          intro e he
+          obtain ⟨p, _, rfl⟩ := List.mem_map.1 he
+          simp
+        rw [this, List.append_nil]
+      · exact ⟨by simp [crdt_read_clean], rfl, by simpa using crdt_clean_others ns ds⟩
+    · exact ⟨by simp [crdt_read_clean], rfl, by simpa using crdt_clean_others ns ds⟩
+
+/-- what the crdt manager's import leaves is what the abstract `importStateCrdt` of the pins suite says -/
+theorem crdt_import_is_model (ns : Nat) (ds : DS) (t : PinMap) (js : List JPin) (garbage : Bool) :
+    ((importCrdt ns ds js garbage).1, offlineRead ns (importCrdt ns ds js garbage).2) = importStateCrdt t js garbage := by
+  unfold importCrdt importStateCrdt
+  cases h : importInto [] js with
+  | none => simp [crdt_read_clean]
+  | some m =>
+    have hs : SS m := ss_importInto js ss_nil h
+    cases garbage
+    · cases hjs : js.isEmpty <;> simp [crdt_read_clean, crdt_read_commit_clean _ _ hs]
+    · simp [crdt_read_clean]
+
+/-- export → crdt import onto ANY store content → offline read / crdt export: the same pinset
+    (every prior store content, every pinset of well-formed pins without origins - K01c -, every listing order) -/
+theorem crdt_import_export_id (ns : Nat) (ds : DS) (g listing : List Pin) (hw : ∀ p ∈ g, wfPin p = true)
+    (ho : ∀ p ∈ g, p.origins = []) (hl : listing.Perm (fromList g)) :
+    ∃ js, exportStream listing = some js ∧ (importCrdt ns ds js false).1 = .ok (fromList g) ∧
+      offlineRead ns (importCrdt ns ds js false).2 = fromList g ∧
+      exportCrdt ns (importCrdt ns ds js false).2 = exportStream (fromList g) := by
+  obtain ⟨js, h1, h2⟩ := export_import_crdt_id_partial g [] listing hw ho hl
+  have h := crdt_import_is_model ns ds (fromList []) js false
+  rw [h2] at h
+  have ha := congrArg Prod.fst h
+  have hb := congrArg Prod.snd h
+  simp only at ha hb
+  exact ⟨js, h1, ha, hb, by unfold exportCrdt; rw [hb]⟩
+
+/-- refuted alternative: an import that does not `Clean` keeps a pin that is not in the import -/
+theorem crdt_import_without_clean_keeps_prior :
+    ∃ (ds : DS) (js : List JPin) (p : Pin), p ∈ offlineRead 0 (importNoClean 0 ds js).2 ∧
+      p ∉ offlineRead 0 (importCrdt 0 ds js false).2 := by
+  let p : Pin := { cid := 5, ptype := 2, allocs := [], depth := -1, ref := none, rmin := 0, rmax := 0, name := 0,
+                   mode := 0, shard := 0, ualloc := [], expire := 0, pmeta := [], pupdate := none, origins := [] }
+  exact ⟨ofPins 0 [p], [], p, by decide, by decide⟩
+
+def crdtExamplePin : Pin :=
+  { cid := 5, ptype := 2, allocs := [], depth := -1, ref := none, rmin := 0, rmax := 0, name := 0,
+    mode := 0, shard := 0, ualloc := [], expire := 0, pmeta := [], pupdate := none, origins := [] }
+
+example : offlineRead 0 (ofPins 0 [crdtExamplePin] ++ ofPins 1 [crdtExamplePin]) ≠ [] ∧
+    clean 0 (ofPins 0 [crdtExamplePin] ++ ofPins 1 [crdtExamplePin]) ≠ [] ∧
+    offlineRead 0 (importCrdt 0 (ofPins 0 [crdtExamplePin] ++ ofPins 1 [crdtExamplePin]) [] false).2 = [] := by decide
+
+end CrdtTheorems
 end CV.C14
